@@ -12,6 +12,7 @@ import (
 	"github.com/icon-project/goloop/common/crypto"
 	"github.com/icon-project/goloop/common/db"
 	"github.com/icon-project/goloop/common/errors"
+	"github.com/icon-project/goloop/common/log"
 	"github.com/icon-project/goloop/common/merkle"
 	"github.com/icon-project/goloop/common/trie"
 	"github.com/icon-project/goloop/module"
@@ -209,10 +210,6 @@ type wrapHandler struct {
 }
 
 func (h *wrapHandler) Prepare(ctx contract.Context) (state.WorldContext, error) {
-	// the dispatcher is a scheduled task too: it parks before it creates the next
-	// transaction's future and goroutine, so that only one goroutine at a time is
-	// in its (unchosen) start-up window
-	h.tx.x.yield(dispatcherTask, 0, fmt.Sprintf("prep%d", h.tx.idx))
 	h.tx.x.recs[h.tx.idx].prepared++
 	return h.inner.Prepare(ctx)
 }
@@ -237,6 +234,13 @@ func (h *wrapHandler) Execute(ctx contract.Context, wcs state.WorldSnapshot, est
 		ar.err = t.spec.inj.err()
 		x.note(t.idx, "attempt %d: injected handler error before execution", attempt)
 		return nil, ar.err
+	}
+	// touch the declared accounts one by one, yielding after each call: a wait for a
+	// predecessor's commit then ends at a yield point, and the real handler below
+	// runs as one chosen step instead of in the unchosen tail of such a wait
+	for k, a := range t.w.touchSet(t.spec) {
+		_ = ctx.GetAccountState(a.id())
+		x.yield(t.idx, attempt, fmt.Sprintf("a%d+", k))
 	}
 	ar.pre = t.w.observe(ctx, t.spec)
 	rct, err := h.inner.Execute(ctx, wcs, estimate)
@@ -351,7 +355,6 @@ func (h *scriptHandler) Prepare(ctx contract.Context) (state.WorldContext, error
 	for _, c := range sc.order {
 		lq = append(lq, state.LockRequest{ID: string(t.w.cfg.scripts[c].id()), Lock: sc.locks[c]})
 	}
-	t.x.yield(dispatcherTask, 0, fmt.Sprintf("prep%d", t.idx))
 	t.x.recs[t.idx].prepared++
 	return ctx.GetFuture(lq), nil
 }
@@ -450,6 +453,8 @@ func registerTx(tx transaction.Transaction) { txRegistry[string(tx.Bytes())] = t
 
 func registerOnce() {
 	regOnce.Do(func() {
+		// goloop's package-level logger writes debug lines to stderr (db.Writer, contract manager): silence it
+		log.SetGlobalLogger(quietLogger())
 		transaction.RegisterFactory(&transaction.Factory{
 			Priority: 4,
 			CheckJSON: func(jso map[string]interface{}) bool {
